@@ -106,6 +106,16 @@ def c02(prop, tier):
         for b in sims:
             b['reps'] = reps
         bs += sims
+    # directed behaviours: shortest behaviours reaching a situation in which one particular mechanism has to deliver an entry
+    for trap, reps in (('NoTrap1', ['a', 'b']), ('NoTrap2', ['a', 'b', 'c']), ('NoTrap3', ['a', 'b'])):
+        t = vlib.tlc_check('SimSystem.tla', sys_cfg('SimSpec', reps, 3, 3, invs=trap), 'C02-' + trap, timeout=600)
+        ck.add_tlc(t, 'trap property %s (witness behaviour wanted)' % trap)
+        if t.get('violated') == trap and t.get('trace'):
+            for st in t['trace']:
+                st['action'] = SYS_RENAME.get(st['action'], st['action'])
+            bs.append({'id': 'witness-' + trap, 'steps': t['trace'], 'reps': reps})
+        else:
+            ck.inconclusive.append('TLC found no witness for %s within the bounds' % trap)
     for b in bs:
         if any(s['action'] in ('Cut', 'Drop', 'Restart') or (s['action'] == 'Receive' and s['args'][1] is True) for s in b['steps']):
             ck.distinct.add(vlib.beh_signature(b))
